@@ -209,7 +209,7 @@ def gen_inlines(rng, opt, max_lines=3, allow_breaks=True, simple=False, min_atom
     for i in range(n - 1):
         if allow_breaks and lines < max_lines and rng.random() < 0.22:
             if rng.random() < 0.3:
-                out.append(('hard', rng.choice(('  ', '   ', '\\'))))
+                out.append(('hard', rng.choice(('  ', '   ', '\\', ' \\'))))
             else:
                 out.append(('soft',))
             out.append(('text', word(rng)))
@@ -301,7 +301,8 @@ def url_attr(dest):
 
 
 def inl_html(nodes):
-    return seq(nodes, atom_html, '\n', lambda nd: '<br />\n')
+    # ' \\' = a backslash break preceded by a space: the space stays text (6.7)
+    return seq(nodes, atom_html, '\n', lambda nd: (' ' if nd[1] == ' \\' else '') + '<br />\n')
 
 
 def atom_html(nd):
